@@ -5,11 +5,14 @@ use crate::ctx::Ctx;
 pub mod c01;
 pub mod c02;
 pub mod c03;
+pub mod c11;
+pub mod c16;
+pub mod c19;
 pub mod common;
 pub mod c20;
 
 pub fn implemented(id: &str) -> bool {
-    matches!(id, "C01" | "C02" | "C03" | "C20")
+    matches!(id, "C01" | "C02" | "C03" | "C11" | "C16" | "C19" | "C20")
 }
 
 pub fn run(id: &str, ctx: &mut Ctx) {
@@ -17,6 +20,9 @@ pub fn run(id: &str, ctx: &mut Ctx) {
         "C01" => c01::run(ctx),
         "C02" => c02::run(ctx),
         "C03" => c03::run(ctx),
+        "C11" => c11::run(ctx),
+        "C16" => c16::run(ctx),
+        "C19" => c19::run(ctx),
         "C20" => c20::run(ctx),
         _ => panic!("property {id} has no check"),
     }
